@@ -42,6 +42,22 @@ fn observe_memory(t: &mut Tracer, p: &Package, origin: &str, emitted: bool, gets
 }
 
 /// structure-aware mutation of a package's metadata region
+/// a `Signing` implementation that returns a signature it already holds and reads nothing
+#[derive(Debug)]
+struct ReplaySigner {
+    sig: Vec<u8>,
+    alg: rpm::signature::AlgorithmType,
+}
+impl rpm::signature::Signing for ReplaySigner {
+    type Signature = Vec<u8>;
+    fn sign(&self, _data: impl std::io::Read, _t: rpm::Timestamp) -> Result<Vec<u8>, rpm::Error> {
+        Ok(self.sig.clone())
+    }
+    fn algorithm(&self) -> rpm::signature::AlgorithmType {
+        self.alg
+    }
+}
+
 pub fn mutate(rng: &mut Rng, src: &[u8]) -> (Vec<u8>, String) {
     let mut b = src.to_vec();
     let lay = rawhdr::layout(src);
@@ -248,6 +264,20 @@ pub fn run(args: &Args) {
                 let key = ["rsa4096", "rsa3072p", "ed25519", "ecdsa", "asset"][(i as usize / 3) % 5];
                 if guarded(|| p.sign_with_timestamp(gen_::signer(key), 1_600_000_000u32)).map(|r| r.is_ok()).unwrap_or(false) {
                     observe_memory(&mut t, &p, &format!("signed:{i}:{key}"), true, false);
+                }
+                // a signer (any implementation of the public Signing trait) that does not read the data it is handed,
+                // here one that replays a detached signature made beforehand over the same header
+                if i % 6 == 0 {
+                    let whole = write_pkg(&p);
+                    if let Some(hb) = rawhdr::layout(&whole).map(|l| whole[l.hdr_at..l.payload_at].to_vec()) {
+                        use rpm::signature::Signing;
+                        if let Ok(Ok(sig)) = guarded(|| gen_::signer(key).sign(&hb[..], rpm::Timestamp::from(1_600_000_000u32))) {
+                            let lazy = ReplaySigner { sig, alg: gen_::signer(key).algorithm() };
+                            if guarded(|| p.sign_with_timestamp(lazy, 1_600_000_000u32)).map(|r| r.is_ok()).unwrap_or(false) {
+                                observe_memory(&mut t, &p, &format!("replay-signed:{i}:{key}"), true, false);
+                            }
+                        }
+                    }
                 }
                 if i % 2 == 0 {
                     let _ = guarded(|| p.clear_signatures());
